@@ -5,8 +5,8 @@ sys.path.insert(0, os.path.dirname(os.path.abspath(__file__)))
 import props
 
 TEXT = {
- "C01": "partial: Coq model in which every panic site, every loop (fuel) and the entity recursion are explicit; theorems proved so far are listed in the evidence (termination / no-panic lemmas as they land); correspondence of the result class on exhaustive meta strings, token strings, all fixture prefixes, mutations, entity graphs; isolated scale runs (depth up to 10^6 on a 1 MiB stack, debug and release). Stack bytes per frame and allocator behaviour are runtime facts no theorem here exhibits.",
- "C02": "partial: theorems about the arena encoding (Spec/Tree.v) and the builder as they land (see evidence); correspondence of every link (parent, prev/next sibling, first/last child, descendants count) on exhaustive token strings x entity tables and random documents; direct well-formedness oracle on the implementation's dump.",
+ "C01": 'partial proof: (termination) OutOfFuel is proved unreachable for the whole tokenizer run with the real callback on valid UTF-8 input: every loop consumes input and the detector bounds entity nesting; (no panic) the tokenizer is proved to reach none of its panic sites on valid UTF-8 with any non-panicking callback, and the real callback is proved to preserve the builder invariant and to be able to reach only one site, the debug_assert / truncation of ShortRange::from in resolve_namespaces (tree_order longer than u32::MAX; DESIGN.md D17); the final root-children check of parse() is covered by C02/C11 theorems. Stack bytes per frame and allocator behaviour are runtime facts: isolated scale runs (depth up to 10^6 on a 1 MiB stack, debug and release).',
+ "C02": "proof: parse text opt = Ok d implies the arena of d is the pre-order encoding (Spec/Tree.v) of a tree satisfying wf_doc_tree: Root at id 0 and nowhere else, children only under Root/Element, exactly one element child of the root, no text under the root, no two adjacent text siblings (theorem parse_wf_doc_tree, for every input and all options). Tied to /repo by the correspondence of every link on exhaustive token strings x entity tables, random documents and long-run families, plus a direct well-formedness oracle on the implementation's dump.",
  "C03": "partial: three-way correspondence (implementation / Coq model / reference semantics of the generator) over random abstract documents x renderings; lexer theorems are partial.",
  "C04": "partial proof: the text machine (TextBuffer with pending CR, as driven by process_text) is proved equal to the XML decoding of Spec/Text.v for every chunk sequence, also on the model's own loop (process_text_with) for runs without general entity references; CDATA normalisation proved; the composition through entity references is not proved (covered by exhaustive piece sequences in the correspondence).",
  "C05": "partial proof: attribute-value normalisation proved against Spec/Text.v (3.3.3) for every chunk sequence at top level and inside entity values, also on the model's normalize_attribute for values without general entity references; list/order theorems at builder level as they land; composition through nested entities not proved (exhaustive piece sequences in the correspondence).",
@@ -19,10 +19,10 @@ TEXT = {
  "C12": "proof: each lookup of the model's API is proved to be the first match of the enumerated attributes / namespaces (has_tag_name, attribute, attribute_node, has_attribute, default_namespace, lookup_namespace_uri, lookup_prefix incl. the xml case, Attribute equality, tag_name of non-elements). Tied to /repo by the lookup battery.",
  "C13": "partial: the model carries all ranges; correspondence of every node and attribute range; a range oracle (validity, shapes, nesting on DOCTYPE-free documents, borrowed text = slice, shift relation) on the implementation's dump; range theorems not yet proved.",
  "C14": "partial proof: text_pos_at proved total on valid UTF-8, clamping, equal to the counting specification, within bounds, and moving with inserted line breaks / spaces; error-position theorems as they land; correspondence of every error (variant, payload, row, column) and of text_pos_at for all offsets.",
- "C15": "partial: relation oracle over limits taken relative to the real node count; theorems of the limit simulation as they land.",
- "C16": "partial: relation oracle (DtdDetected or identical result; Document::parse = default options; content <= input); theorems as they land.",
+ "C15": 'proof: limit_caps, limit_above, limit_below, limit_error_persists proved for every input, both values of allow_dtd and every pair of limits (a lockstep simulation of the two runs through the whole tokenizer and builder). Tied to /repo by the relation oracle over limits taken relative to the real node count.',
+ "C16": 'proof: default options read from the source; dtd_flag_relation (Err DtdDetected or identical result) and no_doctype_no_difference proved for every input and limit. The length clause (content <= input under default options) is checked by the relation oracle, not proved. Tied to /repo by runs under both option values and Document::parse.',
  "C17": "proof: node keys (document, id): equality iff same key, cmp a total order consistent with equality, document order inside one document, documents kept together (also for sorted lists), get_node Some exactly below the node count. Hash is a function of the same key (not modelled; exercised through HashSet in the correspondence). Tied to /repo by the identity battery over two live documents.",
- "C18": "partial: in the model a borrowed string is an offset pair, so a copy cannot be stated as a borrow; bounds theorems as they land; correspondence of storage kind and address offsets of every string; fast-path oracle.",
+ "C18": "partial proof: every borrowed string of a parsed document is proved to be a valid slice of the input (bounds and char boundaries), the only 'static strings are those of the xml namespace, the fast paths are proved to keep text / CDATA / attribute values borrowed; that the bytes of a name equal the written name is covered by the lexer theorems as far as they go; correspondence of storage kind and address offsets of every string.",
  "C19": "partial (translation validation): dumps under four feature sets and repeated/interleaved parses must be identical; the model is a function by construction.",
  "C20": "partial: Send/Sync and the unsafe ban are judgements of rustc (checked while building the harness and with -F unsafe_code), not theorems; reader threads over one Document must reproduce the single-thread dump; the model's read operations are pure functions of the document.",
 }
